@@ -200,6 +200,74 @@ def gen_closed_stdio(rng):
     return out
 
 
+def gen_sigchld(rng):
+    """>= 3 children leaving at different times while the application has its own SIGCHLD
+    watchers (regular / one-shot), started before, between or after the spawns, stopped or
+    closed along the way: every child must still be reported once."""
+    toks = ["L39", "g0", "g1", "g2"]
+
+    def wop():
+        k = rng.randrange(3)
+        r = rng.random()
+        if r < 0.45:
+            return "Y%d:o" % k
+        if r < 0.75:
+            return "Y%d:r" % k
+        if r < 0.9:
+            return "y%d" % k
+        return "X%d" % k
+    if rng.random() < 0.7:
+        toks.append(rng.choice(["Y0:o", "Y0:o", "Y0:r", "Y0:o Y1:o"]))     # before the first uv_spawn
+    n = rng.randint(3, 8)
+    gates = {0: [], 1: [], 2: []}
+    for h in range(n):
+        g = h if h < 3 else rng.randrange(3)
+        act = "x%d" % rng.randrange(256) if rng.random() < 0.7 else "s%d" % rng.choice(TERM_SIGS)
+        toks.append("S%d:%s:%s:%d:-" % (h, rng.choice(["-", "i,i,i", "h0,h1,h2"]), act, g))
+        gates[g].append(h)
+        if rng.random() < 0.3:
+            toks.append(wop())
+    for g in rng.sample([0, 1, 2], 3):
+        if rng.random() < 0.4:
+            toks.append(wop())
+        if rng.random() < 0.3:
+            toks.append("T%d D" % g)
+        else:
+            toks.append("G%d" % g)
+            toks += ["A%d" % h for h in gates[g]]
+            toks.append(rng.choice(["D", "R D", "R R D"]))
+    toks.append("G0 G1 G2 D W")
+    return " ".join(toks)
+
+
+def gen_disable(rng):
+    """non-contiguous inheritable descriptors below 16 (and above), uv_disable_stdio_inheritance(),
+    then a spawn whose helper reports its table"""
+    hi = rng.choice([12, 15, 15])
+    toks = ["L%d" % hi]
+    user = {}
+    for fd in rng.sample(range(3, hi + 1), rng.randint(1, 5)):
+        user[fd] = (rng.randint(1, 8), rng.random() < 0.25)
+    if hi == 15:
+        # the loop's descriptors occupy 16..22: 23 continues the run, 30 and 40 are behind a gap
+        for fd in (23, 24, 30, 40):
+            if rng.random() < 0.5:
+                user[fd] = (rng.randint(1, 8), rng.random() < 0.25)
+    else:
+        for fd in (30, 40):
+            if rng.random() < 0.5:
+                user[fd] = (rng.randint(1, 8), False)
+    for fd in sorted(user):
+        toks.append("f%d=%d%s" % (fd, user[fd][0], "c" if user[fd][1] else "n"))
+    slots = []
+    for i in range(rng.choice([0, 0, 1, 2, 3, 3, 4, 6])):
+        r = rng.random()
+        slots.append("i" if r < 0.35 else ("p" if r < 0.45 else "h%d" % rng.choice(sorted(user) + [0, 1, 2])))
+    toks += ["H", "r", "S0:%s:x%d:-:R%s" % (",".join(slots) or "-", rng.randrange(256), "E" if rng.random() < 0.1 else ""),
+             "S1:-:x7:-:-", "D"]
+    return " ".join(toks)
+
+
 CORPUS = [
     # regression (fixed by /repo a79de05): the error pipe lands on 4 < stdio_count 6 and slot 4 is
     # mapped; before the fix the exec failure was reported as success
@@ -266,6 +334,9 @@ class Impl:
         self.case, self.line = case, line
         self.debug = debug          # assert-enabled flavour of libuv
         self.abort = None           # (h, assertion text): abort() inside uv_spawn
+        self.disable = []           # ("Hb"|"Ha", table) around uv_disable_stdio_inheritance()
+        self.user_cbs = 0
+        self.stuck_why = ""
         self.pcreds = {}
         self.bad = None
         self.toks = line.split()
@@ -293,7 +364,13 @@ class Impl:
             for t in self.toks:
                 c = t[0]
                 if t.startswith("stuck:"):
-                    self.stuck += [int(x) for x in t[6:].split(",")]
+                    _, why, hs = t.split(":")
+                    self.stuck_why = why
+                    self.stuck += [int(x) for x in hs.split(",")]
+                elif t.startswith("Hb0:") or t.startswith("Ha0:"):
+                    self.disable.append((t[:2], parse_table(t[4:])))
+                elif c == "v":
+                    self.user_cbs += 1
                 elif t.startswith("abort:"):
                     _, h, txt = t.split(":", 2)
                     self.abort = (int(h), txt.replace("_", " ").strip())
@@ -622,9 +699,21 @@ def monitor_impl(im):
                      "blocked" if ma & ~mb else "unblocked")), False
     for h in im.stuck:
         after = [k for k in im.spawns if k < h and im.spawns[k]["ret"] != 0]
-        return ("child %d%s never reported within the drain: it has exited, SIGCHLD is blocked in the "
-                "loop thread, the handle is still active" %
-                (h, " spawned after a failed spawn" if after else "")), False
+        return ("child %d%s never reported within the drain: it has exited, %s, the handle is still active" %
+                (h, " spawned after a failed spawn" if after else "",
+                 "SIGCHLD is blocked in the loop thread" if im.stuck_why == "blocked" else
+                 "the disposition of SIGCHLD is back to default although process handles are active")), False
+    for k in range(0, len(im.disable) - 1, 2):
+        before, after = im.disable[k][1], im.disable[k + 1][1]
+        run = 16
+        while run in before:
+            run += 1
+        for d, e in sorted(after.items()):
+            if (d < 16 or d < run) and not e[1]:
+                return ("descriptor %d is still inheritable after uv_disable_stdio_inheritance() (open: %s)"
+                        % (d, ",".join(str(x) for x in sorted(before) if x < 64))), False
+        if set(before) != set(after) or any(before[d][0] != after[d][0] for d in before):
+            return "uv_disable_stdio_inheritance() opened, closed or redirected a descriptor", False
     for h, sp in sorted(im.spawns.items()):
         sc = im.script[h]
         fl, stdio = sc["flags"], sc["stdio"]
@@ -789,7 +878,9 @@ def main():
         nsh, nex = 0, 0
     shuffles = [gen_shuffle(rng) for _ in range(nsh)]
     exits = [gen_exits(rng, 30 if thorough else 16) for _ in range(nex)]
-    special = [] if chk.replay else gen_creds(rng, 1500 if thorough else 120) + gen_closed_stdio(rng)
+    special = [] if chk.replay else (gen_creds(rng, 1500 if thorough else 120) + gen_closed_stdio(rng) +
+                                     [gen_sigchld(rng) for _ in range(1500 if thorough else 150)] +
+                                     [gen_disable(rng) for _ in range(1500 if thorough else 150)])
     cases = corpus + shuffles + exits + special
     wdir = os.path.join(chk.scratch.dir, "c12files")
     os.makedirs(wdir, exist_ok=True)
@@ -820,6 +911,24 @@ def main():
         return reason
     vf.diff_cases(chk, "process.c uv_spawn/uv__process_child_init/uv__wait_children = Model/Process.v",
                   cases, ca, cb, monitor)
+    # uv_disable_stdio_inheritance(): table before -> model -> table after
+    hcases, himpl, hin = [], [], []
+
+    def tabstr(im, t):
+        return ",".join("%d=%d/%d" % (fd, im.fid(e[0]), e[1]) for fd, e in sorted(t.items())) or "-"
+    for c, im in zip(cases, impls):
+        if im.bad:
+            continue
+        for k in range(0, len(im.disable) - 1, 2):
+            hcases.append(c)
+            hin.append(tabstr(im, im.disable[k][1]))
+            himpl.append(tabstr(im, im.disable[k + 1][1]))
+    if hcases:
+        hmodel, _, _ = vf.run_lines([model, "disable"], hin)
+        vf.diff_cases(chk, "core.c uv_disable_stdio_inheritance = Model/Process.v disable_stdio_inheritance",
+                      hcases, himpl, hmodel)
+    stats["disable_stdio_inheritance_calls"] = len(hcases)
+    stats["user_sigchld_callbacks"] = sum(im.user_cbs for im in impls if not im.bad)
     for im in impls:
         if im.bad:
             continue
